@@ -296,6 +296,7 @@ func workerMain() int {
 			schedSigs[v.SchedSig] = true
 		}
 		if evlog != nil {
+			sort.Strings(v.Probes) // the order in which an oracle meets its probes may follow Go map iteration
 			fmt.Fprintf(evlog, "%d seed=%x viol=%v clause=%s inc=%q sig=%q steps=%d req=%d hand=%d osig=%x ssig=%x probes=%v\n",
 				i, runSeed, v.Violation, v.Clause, v.Inconclusive, v.Signature, v.Steps, v.Requests, v.Handoffs, v.OrderSig, v.SchedSig, v.Probes)
 		}
@@ -754,6 +755,30 @@ func deadWorker(p props.Property, idx, code int, journalFile, stderr, runDir str
 	_ = os.WriteFile(file, jb, 0o644)
 	if !freshReplayFails(file) {
 		return ViolationReport{}, false
+	}
+	// minimise by replaying candidates in fresh processes (the failure kills the process, so it
+	// cannot be done in-process); bounded, because every attempt costs a process
+	tmp := file + ".candidate"
+	deadline := time.Now().Add(150 * time.Second)
+	small, attempts := shrink.Minimise(&sc, func(c *props.Scenario) bool {
+		if time.Now().After(deadline) {
+			return false
+		}
+		cb, _ := json.Marshal(c)
+		if os.WriteFile(tmp, cb, 0o644) != nil {
+			return false
+		}
+		return freshReplayFails(tmp)
+	}, 30)
+	_ = os.Remove(tmp)
+	if attempts > 0 && small != nil {
+		small.Clause, small.Detail = clause, detail
+		small.Note = strings.TrimSpace(small.Note + fmt.Sprintf(" (journalled scenario of a worker that died; minimised in %d fresh-process attempts)", attempts))
+		sb, _ := json.MarshalIndent(small, "", " ")
+		_ = os.WriteFile(file, sb, 0o644)
+		if !freshReplayFails(file) { // keep the original if the minimised one does not reproduce
+			_ = os.WriteFile(file, jb, 0o644)
+		}
 	}
 	return ViolationReport{RunSeed: sc.RunSeed, Clause: clause, Detail: detail, Replay: file}, true
 }
